@@ -46,6 +46,29 @@ theorem leaf_rep {i : Nat} {n : ParseNode} {e : Expr F} (hn : nodes[i]? = some n
   · cases he; exact Rep.ident hn (by assumption) hl hr
   · cases he
 
+theorem leaf_leafRep {n : ParseNode} {e : Expr F} (he : leafE pf n.definition n.lexToken.text = some e) : LeafRep pf n e := by
+  unfold leafE at he
+  split at he
+  · cases he; exact .lit (.unit (by assumption))
+  · cases he; exact .lit (.tru (by assumption))
+  · cases he; exact .lit (.fls (by assumption))
+  · split at he
+    · cases he; exact .lit (.num (by assumption) (by assumption))
+    · cases he
+  · split at he
+    · cases he; exact .lit (.chars (by assumption) (by assumption))
+    · cases he
+  · split at he
+    · cases he; exact .lit (.bytes (by assumption) (by assumption))
+    · cases he
+  · split at he
+    · cases he; exact .lit (.sym (by assumption) (by assumption))
+    · cases he
+  · cases he; exact .lit (.prop (by assumption))
+  · cases he; exact .input (by assumption)
+  · cases he; exact .ident (by assumption)
+  · cases he
+
 theorem pre_out {hi i ri : Nat} {n : ParseNode} {t' : RTree} {x y : Res F} (hn : nodes[i]? = some n)
     (hr : n.right = some ri) (hx : Rep pf nodes B (i + 1) hi ri x.e)
     (he : preE n.definition n.lexToken.text x = some y) : Out pf nodes B i hi i t' y := by
